@@ -73,18 +73,49 @@ const (
 	srvTruncated
 )
 
+// where a stalling server stops until the harness opens the gate
+const (
+	stallNone int32 = iota
+	stallBeforeHeaders
+	stallMidBody
+)
+
 type server struct {
-	ts     *httptest.Server
-	layers []*layer
-	mode   []atomic.Int32
-	hits   []atomic.Int64 // requests that reached the handler
-	delay  func(k int)    // optional latency hook (free mode)
+	ts      *httptest.Server
+	layers  []*layer
+	mode    []atomic.Int32
+	hits    []atomic.Int64 // requests that reached the handler
+	delay   func(k int)    // optional latency hook (free mode)
+	stall   []atomic.Int32
+	arrived chan int // a stalled request reached its stall point
+	gmu     sync.Mutex
+	gate    []chan struct{}
 }
 
 func newServer(layers []*layer) *server {
-	s := &server{layers: layers, mode: make([]atomic.Int32, len(layers)), hits: make([]atomic.Int64, len(layers))}
+	s := &server{layers: layers, mode: make([]atomic.Int32, len(layers)), hits: make([]atomic.Int64, len(layers)),
+		stall: make([]atomic.Int32, len(layers)), arrived: make(chan int, 256), gate: make([]chan struct{}, len(layers))}
 	s.ts = httptest.NewServer(http.HandlerFunc(s.handle))
 	return s
+}
+
+// armStall makes the next request for k stop at the given point.
+func (s *server) armStall(k int, where int32) {
+	s.gmu.Lock()
+	s.gate[k] = make(chan struct{})
+	s.gmu.Unlock()
+	s.stall[k].Store(where)
+}
+
+// openGate lets a stalled request for k continue.
+func (s *server) openGate(k int) {
+	s.stall[k].Store(stallNone)
+	s.gmu.Lock()
+	if g := s.gate[k]; g != nil {
+		close(g)
+		s.gate[k] = nil
+	}
+	s.gmu.Unlock()
 }
 
 func (s *server) handle(w http.ResponseWriter, r *http.Request) {
@@ -99,6 +130,40 @@ func (s *server) handle(w http.ResponseWriter, r *http.Request) {
 	}
 	l := s.layers[k]
 	w.Header().Set("Content-Type", "application/octet-stream")
+	if st := s.stall[k].Load(); st != stallNone {
+		s.gmu.Lock()
+		g := s.gate[k]
+		s.gmu.Unlock()
+		half := len(l.body) / 2
+		if st == stallMidBody {
+			w.Write(l.body[:half])
+			if f, ok := w.(http.Flusher); ok {
+				f.Flush()
+			}
+		}
+		s.arrived <- k
+		if g != nil {
+			select {
+			case <-g:
+			case <-r.Context().Done():
+				return
+			}
+		}
+		if st == stallMidBody {
+			// the first half is out: deliver the rest, damaged or not at all when told to fail
+			switch s.mode[k].Load() {
+			case srvOK:
+				w.Write(l.body[half:])
+			case srvWrongBytes:
+				b := append([]byte(nil), l.body[half:]...)
+				b[0] ^= 0x40
+				w.Write(b)
+			default:
+				panic(http.ErrAbortHandler)
+			}
+			return
+		}
+	}
 	switch s.mode[k].Load() {
 	case srv500:
 		w.WriteHeader(http.StatusInternalServerError)
@@ -121,6 +186,9 @@ func (s *server) handle(w http.ResponseWriter, r *http.Request) {
 func (s *server) uri(k int) string { return s.ts.URL + "/l/" + strconv.Itoa(k) }
 
 func (s *server) close() {
+	for k := range s.layers {
+		s.openGate(k)
+	}
 	s.ts.CloseClientConnections()
 	s.ts.Close()
 }
